@@ -51,6 +51,47 @@ def zero_hashes_alike(rep, F, rule='HASH-ZERO'):
     return n
 
 
+def feeding_shape(rep, F, rule='HASH-SHAPE'):
+    """necessary for agreement under ANY Hasher (many hashers mix each write call separately): the sequence of Hasher /
+    Hash calls that receive the state is the same on every path a non-zero value can take, and the same on every path a
+    zero can take - equal values reach different paths only through their representation (sign of the scale, trailing
+    zeros), so a representation-dependent call sequence splits equal values under such hashers"""
+    n = 0
+    for fn in common.hash_entries(F):
+        key = fn.key + ':same-call-sequence'
+        try:
+            pe = TB.PathEnum(F, fn, max_paths=400, cut_loops=True)
+            paths = pe.run()
+        except TB.Undecided as e:
+            rep.undecided(rule, key, 'paths not enumerable: %s' % e, fn.where())
+            continue
+        n += 1
+        groups = {}
+        for (atoms, out), eff in zip(paths, pe.effects):
+            zero = None
+            for term, (rel, v) in atoms:
+                if TB.is_call(term, r'Zero::is_zero$|BigInt::is_zero$'):
+                    zero = not (rel == 'eq' and v == 0)
+            seq = []
+            for name, args in eff:
+                if re.search(r'hash::Hash::hash$|Hash>::hash$|hash::Hasher::\w+$|Hasher>::\w+$', name):
+                    seq.append(TB._plain(name).split('::')[-1] if 'Hasher' in name else 'Hash::hash')
+            looped = TB.show(out).startswith("('loop'")
+            sig = tuple(seq) + (('...loop',) if looped else ())
+            for z in ([zero] if zero is not None else [True, False]):
+                groups.setdefault(z, set()).add(sig)
+        bad = [(z, sigs) for z, sigs in groups.items() if len(sigs) > 1]
+        if bad:
+            z, sigs = bad[0]
+            rep.violation(rule, key, 'the Hasher is fed by different call sequences depending on the representation (%s values): %s - hashers that mix each write separately give equal decimals different hashes'
+                          % ('zero' if z else 'non-zero', ' vs '.join(sorted('[' + ', '.join(x) + ']' for x in sigs))[:300]), fn.where())
+        elif not groups or all(not s for sigs in groups.values() for s in sigs):
+            rep.undecided(rule, key, 'no Hasher/Hash call receiving the state recognised', fn.where())
+        else:
+            rep.ok(rule, key, 'every path feeds the state by the same call sequence %s' % list(sorted(next(iter(groups.values())))[0]), fn.where())
+    return n
+
+
 def hashed_data(rep, F, rule='HASH-FIELDS'):
     """necessary for agreement with ==: neither raw representation field is fed to the Hasher
     (scale and trailing zeros differ between equal values), and the hashed datum is computed from
@@ -110,8 +151,8 @@ def hashed_data(rep, F, rule='HASH-FIELDS'):
 def run(ctx):
     rep = ctx.rep
     rep.explanation = ('Static MIR analysis. R-PANIC on Hash::hash for BigDecimal (debug-profile facts): every may-panic site reachable from it is '
-                       'discharged or reviewed under the property\'s own bound |scale| <= 10^5.  A deliberately weak claim: agreement of the '
-                       'hashed bytes with equality is NOT decided.')
+                       'discharged or reviewed under the property\'s own bound |scale| <= 10^5.  HASH-FIELDS / HASH-ZERO / HASH-SHAPE are necessary conditions of agreement with ==: no raw representation field is hashed, every zero hashes the plain digit string, and the Hasher is fed by the same call sequence on every path (so hashers that mix each write separately cannot split equal values).  Agreement of the '
+                       'hashed bytes with equality itself is NOT decided.')
     F = ctx.facts('default', 'dbg')
     ents = common.hash_entries(F)
     rep.entries['hash impl'] = [e.key for e in ents]
@@ -122,5 +163,7 @@ def run(ctx):
     rep.floor('hash field rules', nh, 2)
     nz = zero_hashes_alike(rep, ctx.facts('default', 'rel'))
     rep.floor('zero-hash rule', nz, 1)
+    nsq = feeding_shape(rep, ctx.facts('default', 'rel'))
+    rep.floor('hash feeding-shape rule', nsq, 1)
     rep.assume('|scale| <= 10^5 (the property bounds scales because the hash materialises zeros)')
     rep.trust(common.TRUST_STD)
